@@ -70,7 +70,6 @@ FsNextStates(V, fs, nameClass, crossFs, nchunks) ==
 (* ---- trace checking: one observed event -> the action it must be ---- *)
 (* e = [ev, role, failed, samedir, snap: [named, others, ntmp]]; the result has ok=FALSE *)
 (* when the event is not an enabled step of the protocol or the snapshot disagrees        *)
-Has(e, f) == f \in DOMAIN e
 FsEvent(V, fs, e, nameClass) ==
   LET bad == [fs EXCEPT !.ok = FALSE]
       n == CASE e.ev = "mkstemp" -> IF fs.pc = "start" /\ e.samedir = V.tmpInDest THEN Mkstemp(V, fs) ELSE bad
